@@ -883,6 +883,15 @@ func evalFunctionCall(node *jparse.FunctionCallNode, data reflect.Value, env *en
 		return undefined, newEvalError(ErrNonCallable, node.Func, nil)
 	}
 
+	// Built-in and extension functions are shared by all
+	// evaluations (they live in the base environment or in a
+	// registry). The name and context set below belong to this
+	// call site only, so set them on a private copy.
+	if gc, ok := fn.(*goCallable); ok {
+		c := *gc
+		fn = &c
+	}
+
 	if setter, ok := fn.(nameSetter); ok {
 		if sym, ok := node.Func.(*jparse.VariableNode); ok {
 			setter.SetName(sym.Name)
